@@ -31,6 +31,34 @@ CLAIMS = {
        "validated on OpenSSL/zlib, not proved; general-shape chunking theorem not yet proved (stated in DESIGN §6 C07).",
   technique="Lean 4 theorem proving (induction over chunk lists and chain syntax) + differential correspondence",
   design="§6 C07"),
+ "C06": dict(
+  text="Machine-checked proof on the model of jwk_clean/jose_jwk_pub (Jose/Jwk.lean) over the key-type and "
+       "key-operation tables regenerated from the library's constructor on every run: after a successful export no "
+       "private member of the key's type remains (oct k; RSA d,p,q,dp,dq,qi,oth; EC d — table facts re-proved by "
+       "decide against the regenerated tables), every other member is unchanged, key_ops loses exactly the private "
+       "(for symmetric keys: all registered) operations, export is idempotent, arrays and JWKSets are cleaned "
+       "element-wise. kty matching in any letter case included. Differential run: every subset of private members, "
+       "kty case variants, 2^8 key_ops subsets with junk, nested containers, with a direct oracle of the statement. "
+       "The 'produced objects never contain secrets' half is validated by scanning every JWS/JWE produced in the "
+       "C03/C04 runs for the encodings of all secrets involved (not a theorem).",
+  note="Trusted: Lean kernel, standard axioms; extract_tables.py; model tied to lib/jwk.c by differential testing; "
+       "secrecy of primitive outputs (signature, ciphertext) is cryptography and is not claimed.",
+  technique="Lean 4 theorem proving (generic list lemmas + decide on regenerated tables) + differential correspondence",
+  design="§6 C06"),
+ "C12": dict(
+  text="Machine-checked proof on the model of jwk_str/jose_jwk_thp/jose_jwk_thp_buf/jose_jwk_eql: the hash input is the "
+       "compact sorted dump of exactly kty + the type's required members (concrete RFC 7638 shape proved for EC, RSA, "
+       "oct; required-member lists and digest sizes are table facts re-proved on the regenerated tables), it ignores "
+       "every other member, string and buffer forms agree and the size query returns the digest length, short buffers "
+       "are refused, keys lacking a required member or of unknown type have no thumbprint and equal nothing; equality "
+       "characterised member-wise. Differential run incl. every buffer length 0..70 x 5 hashes with canaries, "
+       "escapes/non-ASCII values, and a direct oracle: hashlib over the RFC 7638 string; eql vs thumbprint equality on "
+       "20k ordered pairs.",
+  note="Trusted: Lean kernel, standard axioms; hash function is an abstract parameter (collision resistance cannot "
+       "be a theorem); 'eql coincides with thumbprint equality' is checked on pairs by the oracle, the general "
+       "injectivity-of-dump theorem is not yet proved; to/from OpenSSL conversion is covered by correspondence only.",
+  technique="Lean 4 theorem proving + regenerated tables + differential correspondence",
+  design="§6 C12"),
 }
 
 NOT_YET = "check not built yet (framework under construction); will be claimed when its Lean theorems and correspondence exist"
